@@ -123,8 +123,8 @@ theorem roundtrip_empty (level : Nat) (h1 : 1 ≤ level) (h9 : level ≤ 9) (seq
     (`Lemmas.CompressSimple.simpleChoice_tablesOK`, from
     `Props.C02.dummyTable_complete`), so the round trip needs only `BwtOK` of
     the naive BWT on each block — a decidable statement about the input (the
-    driver evaluates it on every campaign case; `Spec.ibwt_bwt`, which would
-    discharge it once and for all, is not proved). -/
+    driver evaluates it on every campaign case).  `roundtrip_naive` below
+    discharges it once and for all. -/
 theorem roundtrip_simple (level : Nat) (h1 : 1 ≤ level) (h9 : level ≤ 9) (seq : Bool)
     (input : List UInt8)
     (hbwt : ∀ b ∈ cutBlocks (level * 100000) (Gen.memCompress 1 level).2.2.1 seq input,
@@ -141,6 +141,27 @@ theorem roundtrip_simple (level : Nat) (h1 : 1 ≤ level) (h9 : level ≤ 9) (se
     rw [h0] at this
     exact hne (Option.some.inj this).symm
   exact (Lemmas.CompressSimple.simpleChoice_ok_iff _ hrne).mpr (hbwt b hb)
+
+/-- **roundtrip_naive** (the contract is satisfiable for EVERY input).  No
+    hypothesis about choices: for every input, every level 1…9 and both modes,
+    the compressor model with the simple executable choice function — the
+    rotation-sort BWT `naiveBwt`, two copies of the dummy table, every group
+    coded with table 0 — writes a file that the strict reference decoder
+    decodes to exactly the input.  The BWT half of the contract is
+    `Lemmas.BwtInverse.naiveBwt_ok`: the format's inverse BWT recovers every
+    non-empty block from the last column of its sorted rotations and the row of
+    the unrotated block (LF-mapping argument, `Lemmas.BwtInverse.lf_eq`; equal
+    rotations of periodic blocks included). -/
+theorem roundtrip_naive (level : Nat) (h1 : 1 ≤ level) (h9 : level ≤ 9) (seq : Bool)
+    (input : List UInt8) :
+    Spec.Bzip2.decodeFile (compressFile level seq input simpleChoice) = .ok input :=
+  roundtrip level h1 h9 seq input simpleChoice
+    (fun b hb => Lemmas.CompressSimple.simpleChoice_ok_rle b
+      (cutBlocks_mem _ _ seq input b hb).1)
+
+/-- the contract `ChoicesOK` is satisfiable on every non-empty block -/
+theorem choicesOK_satisfiable (rb : List UInt8) (hne : rb ≠ []) : ∃ ch, ChoicesOK rb ch :=
+  ⟨simpleChoice rb, Lemmas.CompressSimple.simpleChoice_ok rb hne⟩
 
 /-! ## what a terminated run of the scheduler writes -/
 
@@ -203,6 +224,34 @@ theorem roundtrip_sched_gen {n bs : Nat} {u : Bool} {input : List UInt8} {s : St
   exact roundtrip_sched (c := Cfg.ofGen n bs u) bs h1 h9 (by omega) (Nat.le_refl _) hg choose hch
     h hf
 
+open LbzVerif.Model.SchedC LbzVerif.Props.C04.Blocks in
+/-- **roundtrip_sched_naive**: `roundtrip_sched` without any hypothesis about
+    choices — every terminated run of the scheduler model (any worker count,
+    slot totals, schedule, either mode) with the real `collect()`, capacity
+    `cap ≤ level·100000`, and the simple choice function writes a file that
+    the strict reference decoder decodes to the input. -/
+theorem roundtrip_sched_naive {c : Cfg} {cap : Nat} {input : List UInt8} {s : State UInt8 Enc}
+    (level : Nat) (h1 : 1 ≤ level) (h9 : level ≤ 9) (hcap : 1 ≤ cap)
+    (hcl : cap ≤ level * 100000) (hg : 0 < c.inGranul)
+    (h : Reach c (realCodec cap hcap) input s) (hf : finished c s = true) :
+    Spec.Bzip2.decodeFile (assemble level simpleChoice (s.written.map blockOut)) = .ok input :=
+  roundtrip_sched level h1 h9 hcap hcl hg simpleChoice
+    (fun b hb => Lemmas.CompressSimple.simpleChoice_ok_rle b
+      (cutBlocks_mem _ _ c.ultra input b hb).1) h hf
+
+open LbzVerif.Model.SchedC LbzVerif.Props.C04.Blocks in
+/-- … with the numbers of lbzip2 (`n` workers, level `bs`, slot totals and chunk
+    size of `set_memory_constraints()`, capacity `bs·100000`). -/
+theorem roundtrip_sched_naive_gen {n bs : Nat} {u : Bool} {input : List UInt8}
+    {s : State UInt8 Enc} (h1 : 1 ≤ bs) (h9 : bs ≤ 9)
+    (h : Reach (Cfg.ofGen n bs u) (realCodec (bs * 100000) (by omega)) input s)
+    (hf : finished (Cfg.ofGen n bs u) s = true) :
+    assemble bs simpleChoice (s.written.map blockOut) = compressFile bs u input simpleChoice ∧
+    Spec.Bzip2.decodeFile (assemble bs simpleChoice (s.written.map blockOut)) = .ok input :=
+  roundtrip_sched_gen h1 h9 simpleChoice
+    (fun b hb => Lemmas.CompressSimple.simpleChoice_ok_rle b (cutBlocks_mem _ _ u input b hb).1)
+    h hf
+
 /-! ## non-vacuity
 
   The kernel-evaluated witnesses live in Lemmas/CompressWitness*.lean: the
@@ -253,6 +302,13 @@ example : (compressFile 9 false hello simpleChoice).length = 39 := by rw [helloB
 example : Spec.Bzip2.decodeFile (compressFile 9 false hello simpleChoice) = .ok hello :=
   roundtrip_simple 9 (by decide) (by decide) false hello (fun b hb => (helloChoices b hb).1)
 
+/-- `roundtrip_naive` needs no witness: any input will do -/
+example (input : List UInt8) :
+    Spec.Bzip2.decodeFile (compressFile 7 true input simpleChoice) = .ok input :=
+  roundtrip_naive 7 (by decide) (by decide) true input
+
+example : ∃ ch, ChoicesOK [1, 2, 2, 3] ch := choicesOK_satisfiable _ (by decide)
+
 example : Spec.Bzip2.decodeFile (compressFile 1 true [] simpleChoice) = .ok [] :=
   (roundtrip_empty 1 (by decide) (by decide) true simpleChoice).2
 
@@ -278,5 +334,16 @@ example : ∃ s, Model.SchedC.Reach Props.C04.Blocks.xNonCfg Props.C04.Blocks.xC
   obtain ⟨s, hr, hf, _, _⟩ := Props.C04.Blocks.observe_reach Props.C04.Blocks.xNon_obs
   exact ⟨s, hr, hf, roundtrip_sched (c := Props.C04.Blocks.xNonCfg) 1 (by decide) (by decide)
     (by decide) (by decide) (by decide) simpleChoice xChoices_non hr hf⟩
+
+/-- `roundtrip_sched_naive` on the sequential witness run -/
+example : ∃ s, Model.SchedC.Reach Props.C04.Blocks.xSeqCfg Props.C04.Blocks.xCodec
+      Props.C04.Blocks.xInput s ∧
+    Model.SchedC.finished Props.C04.Blocks.xSeqCfg s = true ∧
+    Spec.Bzip2.decodeFile
+      (assemble 1 simpleChoice (s.written.map Props.C04.Blocks.blockOut)) =
+        .ok Props.C04.Blocks.xInput := by
+  obtain ⟨s, hr, hf, _, _⟩ := Props.C04.Blocks.observe_reach Props.C04.Blocks.xSeq_obs
+  exact ⟨s, hr, hf, roundtrip_sched_naive (c := Props.C04.Blocks.xSeqCfg) 1 (by decide)
+    (by decide) (by decide) (by decide) (by decide) hr hf⟩
 
 end LbzVerif.Props.C01.Roundtrip
